@@ -285,11 +285,11 @@ def rule_sib_cb(ctx: Ctx) -> None:
             out.append(t)
         # returned through future.then(callback)
         rets = [ws(norm(n.value)) for n in p.nodes(f) if isinstance(n, ast.Return) and n.value is not None and 'then(' in norm(n.value)]
-        return out, (rets[0] if rets else '')
+        return out, (rets[0].replace(f'.then({h.name})', '.then(CALLBACK)') if rets else '')
     ca, ra = cb_norm(a)
     cbb, rb = cb_norm(b)
     ctx.check(ca == cbb, 'SIB-CB', b, 'callbacks agree', 'callback bodies', f'the bucketed post-processing {cbb} differs from the unbucketed one {ca}', b.node)
-    ctx.check(ra.endswith('.then(callback_)') and rb.endswith('.then(callback_)'), 'SIB-CB', b, 'both return future.then(callback_)', 'then', f'returned futures: {ra} / {rb}', b.node)
+    ctx.check(ra.endswith('.then(CALLBACK)') and rb.endswith('.then(CALLBACK)'), 'SIB-CB', b, 'both return future.then(<their callback>)', 'then', f'returned futures: {ra} / {rb}', b.node)
     want = ['t=VALUE', 'ifaverage:t=1/get_world_size(group)*t', 'ifsymmetric:t=fill_triu(shape,t)', 'returnt']
     alt = ['t=VALUE', 'ifaverage:t=t/get_world_size(group)', 'ifsymmetric:t=fill_triu(shape,t)', 'returnt']
     ctx.check(cbb in (want, alt), 'SIB-CB', b, 'average by get_world_size(group), then refill the symmetric matrix', 'callback form',
